@@ -52,6 +52,12 @@ def dsOnly : List String :=
    "CONTINUE_LOOP", "CONTINUE", "PRINT", "PASS", "EXIST", "NOTEXIST", "NOT_EXIST", "START", "STARTENV", "STARTCODE", "IGNORE", "FOR",
    "WHITESPACE"]
 
+/-- the commands only a Flipper Zero understands -/
+def flipperWords : List String := ["ALTCHAR", "ALTSTRING", "ALTCODE"] ++ oneCharOrBare
+
+/-- the first word of an output line -/
+def firstWord (l : Str) : String := String.ofList (l.takeWhile (· != ' '))
+
 /-- an output line whose first word is neither a DucklingScript-only keyword nor `$`-prefixed -/
 def plainLine (l : Str) : Bool :=
   let w := l.takeWhile (· != ' ')
